@@ -20,7 +20,8 @@ def run(ctx):
     quick = ctx.tier == "quick"
     ctx.cov["rule"] = ("store layer: every transition of SubStore.tla over share-group packs (3 clients) replayed on the real store; "
                        "broker layer: seeded churn scenarios (join, leave by UNSUBSCRIBE / session end / abort / clean take-over, same client "
-                       "in two groups, groups next to non-shared filters, wildcard and '$' filters) followed by numbered publications, "
+                       "in two groups, groups next to non-shared filters, wildcard and '$' filters) followed by numbered publications, and scenarios with 2-3 "
+                       "groups plus a non-shared subscription on ONE filter (the same client in several of them, members leaving one group), "
                        "traces validated by TLC against Broker.tla; non-trivial = a share group matched a publication")
     names = sorted(PACKS)
     plan = [(names[ctx.seed % len(names)], ["c1", "c2", "c3"], 2, 2, 2)] if quick else [(n, ["c1", "c2", "c3"], 2, 3, 2) for n in names]
@@ -40,7 +41,7 @@ def run(ctx):
         for mode in ("overlap", "onlyonce"):
             brokerop_lib.run(ctx, "plain", mode, nopts=3, pubqos=(0, 1, 2), timeout=3000)
             brokerop_lib.run(ctx, "sys", mode, nopts=2, timeout=3000)
-    scs = scen.c11_churn(rng, "s%d" % ctx.seed, 100 if quick else 1200)
+    scs = scen.c11_churn(rng, "s%d" % ctx.seed, 100 if quick else 1200) + scen.c11_samefilter(rng, "s%d" % ctx.seed, 60 if quick else 600)
     rejected, stats = trace_lib.validate(ctx, scs, "c11", invariants=INV)
     ctx.cov["traces_validated_against_impl"] += stats["validated"] + stats["rejected"]
     ctx.cov["evaluations"] += stats["events"]
